@@ -514,6 +514,32 @@ def b_calc_bins(S):
     return out
 
 
+def b_azimuth_bins(S):
+    """whole `determine_azimuth_bins`: ideal width from the SAMPLE SIZE (the cube root is a parameter), times the multiplier, the regenerated `_calc_bins` / `_calc_locs`,
+    unit weights when no lengths are given, `np.histogram(azimuths, edges, weights=lengths)` (prelude `pyHistogram`), and which values go into which field of the result.
+    One checked rewriting turns the `if length_array is None` re-binding into one expression."""
+    src = standalone(S[AZIMUTH], "determine_azimuth_bins", [
+        (r"if length_array is None:\n(\s*#[^\n]*\n)*\s*length_array = np\.array\(\[1\.0\] \* \(len\(azimuth_array\)\)\)", "weights = WEIGHTS_OR_ONES"),
+        (r"np\.histogram\(azimuth_array, bin_edges, weights=length_array\)", "HISTOGRAM"),
+    ])
+    if len(re.findall(r"\bWEIGHTS_OR_ONES\b", src)) != 1 or len(re.findall(r"\bHISTOGRAM\b", src)) != 1 or re.search(r"^\s*length_array\s*=", src, re.M):
+        raise Untranslatable("determine_azimuth_bins: default weights / histogram call changed")
+    C = {"_calc_ideal_bin_width(len(azimuth_array), axial=axial)": "(ideal_ (List.length azimuth_array) axial)",
+         "_calc_bins(ideal_bin_width, axial=axial)": "(calc_bins ideal_bin_width axial)",
+         "_calc_locs(bin_width, axial=axial)": "(calc_locs bin_width axial)",
+         "WEIGHTS_OR_ONES": "(match length_array with | none => List.replicate (List.length azimuth_array) (1 : Rat) | some l => l)",
+         "HISTOGRAM": "(pyHistogram azimuth_array bin_edges weights, ())",
+         "AzimuthBins(bin_width=bin_width, bin_locs=bin_locs, bin_heights=bin_heights)": "(bin_width, bin_locs, bin_heights)"}
+    T = {"_calc_ideal_bin_width(len(azimuth_array), axial=axial)": "Rat", "_calc_bins(ideal_bin_width, axial=axial)": "List Rat × Rat", "_calc_locs(bin_width, axial=axial)": "List Rat",
+         "WEIGHTS_OR_ONES": "List Rat", "HISTOGRAM": "List Rat × Unit", "ideal_bin_width": "Rat", "bin_edges": "List Rat", "bin_width": "Rat", "bin_locs": "List Rat",
+         "weights": "List Rat", "bin_heights": "List Rat", "_": "Unit",
+         "AzimuthBins(bin_width=bin_width, bin_locs=bin_locs, bin_heights=bin_heights)": "Rat × List Rat × List Rat"}
+    return translate_function(
+        src, "determine_azimuth_bins", "determine_azimuth_bins",
+        {"azimuth_array": "List Rat", "length_array": "Option (List Rat)", "bin_multiplier": "Rat", "axial": "Bool"}, "Rat × List Rat × List Rat", C, types=T,
+        extra_params=[("ideal_", "Nat → Bool → Rat")], default_num="Rat")
+
+
 def b_random_radius(S):
     C = {"self.max_radius": "max_radius", "self.min_radius": "min_radius", "np.random.random_sample()": "u",
          "self.max_area": "max_area", "self.min_area": "min_area"}
@@ -2572,6 +2598,7 @@ ITEMS: List[Item] = [
     Item("IsAzimuthClose", GENERAL, ["C15"], b_is_azimuth_close),
     Item("DefaultAzimuthSets", NETWORK, ["C15"], b_default_azimuth_sets),
     Item("CalcBins", AZIMUTH, ["C15"], b_calc_bins),
+    Item("AzimuthBins", AZIMUTH, ["C15"], b_azimuth_bins, deps=["CalcBins"]),
     Item("JunctionShift", GENERAL, ["C02", "C16"], b_junction_shift),
     Item("NodeJunctions", GENERAL, ["C02", "C10"], b_node_junctions, extra_modules=[TVALS]),
     Item("IntersectionFilter", GENERAL, ["C02", "C11", "C03"], b_intersection_filter),
@@ -2590,7 +2617,7 @@ ITEMS: List[Item] = [
     Item("CacheDecorated", GENERAL, ["C17"], b_cache_decorated, extra_modules=[m for m in ALL_MODULES if m != GENERAL]),
     Item("Grid", GRID, ["C18"], b_grid),
     Item("GridLoops", GRID, ["C18"], b_grid_loops),
-    Item("GridSampling", GRID, ["C18"], b_grid_sampling),
+    Item("GridSampling", GRID, ["C18", "C17"], b_grid_sampling),
     Item("IndexMargins", GENERAL, ["C16"], b_index_margins, extra_modules=[PROX]),
     Item("CropPipeline", GENERAL, ["C07", "C04", "C14", "C18"], b_crop_pipeline, deps=["CropHelpers"]),
     Item("LineDataCache", LINEDATA, ["C08", "C15", "C11"], b_line_data, extra_modules=[GENERAL]),
